@@ -517,7 +517,7 @@ def token_of(t, kind="R"):
     return _TOKENS[key][0]
 
 
-def render_number(t, is_int=False):
+def render_number(t, is_int=False, int_spelled=False):
     g = ground(t)
     if g is not None:
         if g.denominator == 1 and is_int:
@@ -526,19 +526,19 @@ def render_number(t, is_int=False):
         if fractions.Fraction(f) == g:
             if is_int:
                 return repr(int(f))
-            return repr(f) if not (g.denominator == 1 and LIFT_STATE.get("ints", {}).get(t.get_id())) else str(int(g))
+            return repr(f) if not (g.denominator == 1 and int_spelled) else str(int(g))
         return f"SYMQ({g.numerator},{g.denominator})"
     return token_of(t, "I" if is_int else "R")
 
 
-LIFT_STATE = {"ints": {}}
 
 
 class SymReal:
-    __slots__ = ("t",)
+    __slots__ = ("t", "int_spelled")     # int_spelled: a lifted Python int (prints as 2, not 2.0); kept on the proxy, never keyed by AST id
 
-    def __init__(self, t):
+    def __init__(self, t, int_spelled=False):
         self.t = t
+        self.int_spelled = int_spelled
 
     def __add__(s, o): return SymReal(s.t + R(o)) if _num(o) else NotImplemented
     def __radd__(s, o): return SymReal(R(o) + s.t) if _num(o) else NotImplemented
@@ -634,15 +634,15 @@ class SymReal:
         return SymInt(-z3.ToInt(-s.t))
 
     def __repr__(s):
-        return render_number(s.t)
+        return render_number(s.t, False, s.int_spelled)
 
     __str__ = __repr__
 
     def __format__(s, spec):
         if spec:
             # a format specification may lose digits: the rendering is an opaque LOSSY token that does not evaluate back to the value
-            return f"LOSSY({render_number(s.t)!r}, {spec!r})"
-        return render_number(s.t)
+            return f"LOSSY({render_number(s.t, False, s.int_spelled)!r}, {spec!r})"
+        return render_number(s.t, False, s.int_spelled)
 
 
 def _rmod(a, b):
@@ -990,10 +990,7 @@ def lift(v):
         return v
     if isinstance(v, builtins.float) and (v != v or v in (float("inf"), float("-inf"))):
         return v
-    r = SymReal(R(v))
-    if isinstance(v, builtins.int):
-        LIFT_STATE["ints"][r.t.get_id()] = True
-    return r
+    return SymReal(R(v), int_spelled=isinstance(v, builtins.int))
 
 
 _INJECTED = {"done": False, "lift": True}
